@@ -39,8 +39,58 @@ def lazy(self, st, op, fn, sources, node, **extra):
     return st.alloc(HObj("iterator", fields, kind="iterator"))
 
 
+def pure_generator(func):
+    """syntactic: the generator's body stores nothing outside its locals, raises nothing and calls nothing for effect
+    (then running it to its end at once cannot be told from running it on demand)"""
+    import ast
+    cached = getattr(func.node, "_pure_gen", None)
+    if cached is not None:
+        return cached
+    ok = True
+    for n in ast.walk(func.node):
+        if isinstance(n, (ast.Assign, ast.AugAssign, ast.AnnAssign, ast.Delete)):
+            ts = n.targets if isinstance(n, (ast.Assign, ast.Delete)) else [n.target]
+            if any(isinstance(x, (ast.Attribute, ast.Subscript)) for t in ts for x in ast.walk(t) if isinstance(x, (ast.Attribute, ast.Subscript)) and isinstance(getattr(x, "ctx", None), (ast.Store, ast.Del))):
+                ok = False
+        elif isinstance(n, (ast.Raise, ast.Global, ast.Nonlocal)):
+            ok = False
+        elif isinstance(n, ast.Expr) and isinstance(n.value, ast.Call):
+            ok = False
+    func.node._pure_gen = ok
+    return ok
+
+
+def force(self, st, ref, node):
+    """Run the body of a generator object now, to its end: the object becomes a concrete iterator over what it yields.
+    -> outcomes (state, "val", ref) | (state, "raise", exc).  Exact when the consumer takes everything at once
+    (list(), extend(), join ...); for a partial consumer (next(), a loop with break) only for a pure generator."""
+    o = st.obj(ref)
+    func, args, kwargs, self_val = o.fields["@gen"]
+    self._forcing_generator = getattr(self, "_forcing_generator", 0) + 1
+    saved = getattr(self, "eager_generators", False)
+    self.eager_generators = True
+    try:
+        outs = self.call_function(st, func, list(args), dict(kwargs), node, self_val=self_val)
+    finally:
+        self.eager_generators = saved
+        self._forcing_generator -= 1
+    res = []
+    for (s, k, v) in outs:
+        if k != "val":
+            res.append((s, k, v))
+            continue
+        w = s.wobj(ref)
+        w.fields.pop("@gen", None)
+        w.fields["@pos"] = 0
+        w.items = list(v)
+        res.append((s, "val", ref))
+    return res
+
+
 def leaves_concrete(st, ref):
     o = st.obj(ref)
+    if "@gen" in o.fields:
+        return False
     if o.items is not None:
         return True
     if "@op" in o.fields:
@@ -50,6 +100,16 @@ def leaves_concrete(st, ref):
 
 def pull(self, st, ref, node, _depth=0):
     o = st.obj(ref)
+    if "@gen" in o.fields:
+        if not pure_generator(o.fields["@gen"][0]):
+            raise _U()("next() on a generator that has effects at %s" % self.loc(node))
+        res = []
+        for (s, k, v) in force(self, st, ref, node):
+            if k != "val":
+                res.append((s, k, v))
+            else:
+                res.extend(pull(self, s, ref, node, _depth))
+        return res
     if o.items is not None:
         pos = o.fields.get("@pos", 0)
         if pos >= len(o.items):
@@ -258,6 +318,18 @@ def pyfn_call(fn, interp, st, args, kwargs, node):
             else:
                 res.append((s, "val", vals[0] if len(parts) == 1 else tuple(vals)))
         return res
+    if kind == "dict.fromkeys":
+        if not (1 <= len(args) <= 2) or kwargs:
+            return interp.raise_exc(st, "TypeError", node, "fromkeys", "dict.fromkeys expects 1 or 2 arguments")
+        k_, seq = interp.iter_values(st, args[0], node)
+        if k_ != "concrete":
+            raise _U()("dict.fromkeys over an abstract sequence at %s" % interp.loc(node))
+        value = args[1] if len(args) == 2 else None       # ONE value object shared by every key, as in Python
+        items = []
+        for key in seq:
+            if not any(interp.x_key_eq(st, k0, key) is True for k0, _ in items):
+                items.append((key, value))
+        return [(st, "val", st.alloc(HObj("dict", kind="dict", items=items)))]
     if kind == "partial":
         f, pargs, pkw = parts
         kw = dict(pkw)
